@@ -146,3 +146,220 @@ Record InvA (s : state) : Prop := {
 Lemma cnt_S_new {A} (P : A -> bool) f n v : P v = false -> cnt P (upd f n v) (S n) = cnt P f n.
 Proof. intros H. simpl. rewrite upd_same, H. simpl. apply cnt_upd_out. lia. Qed.
 
+
+Lemma cnt_init n k : k <= n -> cnt loop_alive (fun h => if Nat.ltb h n then LRecv else LNone) k = k.
+Proof.
+  induction k as [|k IH]; intros Hk; [reflexivity|]. simpl.
+  destruct (Nat.ltb_spec k n); [|lia]. simpl. rewrite IH by lia. reflexivity.
+Qed.
+
+Lemma InvA_init n hon f5 f6 f12 : InvA (init n hon f5 f6 f12).
+Proof.
+  constructor; simpl; intros; try congruence; try discriminate; auto.
+  - symmetry. apply cnt_init. lia.
+  - destruct (Nat.ltb_spec h n); [lia|]. auto.
+  - destruct (Nat.ltb_spec h n); [congruence|lia].
+  - destruct (Nat.ltb h n); discriminate.
+  - destruct (Nat.ltb h n); discriminate.
+  - destruct (Nat.ltb h n); discriminate.
+  - destruct (Nat.ltb h n); discriminate.
+  - destruct (Nat.ltb h n); discriminate.
+Qed.
+
+
+Ltac eqbs := repeat match goal with
+  | H : Nat.eqb _ _ = true |- _ => apply Nat.eqb_eq in H; try subst
+  | H : context [Nat.eqb ?x ?x] |- _ => rewrite Nat.eqb_refl in H
+  | |- context [Nat.eqb ?x ?x] => rewrite Nat.eqb_refl
+  end.
+Ltac fwd2 :=
+  repeat match goal with
+  | H : _ /\ _ |- _ => destruct H
+  | H : ?A -> ?B |- _ =>
+      let HA := fresh in
+      assert (HA : A) by (simpl; first [reflexivity | assumption | congruence | lia]);
+      specialize (H HA); clear HA
+  end.
+Ltac fin5 := try solve [injs; rew_pcs; simpl in *; eqbs; fwd2; injs; rew_pcs; simpl in *; eqbs; fwd2;
+                        intuition (congruence || lia || discriminate)].
+Ltac fin4 := try solve [injs; rew_pcs; simpl in *; eqbs; fwd; injs; rew_pcs; simpl in *; eqbs; fwd;
+                        intuition (congruence || lia || discriminate)].
+Ltac cnt_tac :=
+  repeat first
+  [ rewrite cnt_S_new by reflexivity
+  | rewrite cnt_upd_same by (rew_pcs; reflexivity) ].
+
+Local Opaque cnt.
+
+
+Ltac lt_m Amb := match goal with |- ?m < nextm ?s =>
+   let Hge := fresh in
+   destruct (Nat.lt_ge_cases m (nextm s)) as [?|Hge]; [assumption| exfalso; apply Amb in Hge; rew_pcs; congruence] end.
+Ltac lt_h Ahb1 := match goal with |- ?h < nh ?s =>
+   let Hge := fresh in
+   destruct (Nat.lt_ge_cases h (nh s)) as [?|Hge]; [assumption| exfalso; apply Ahb1 in Hge; destruct Hge; rew_pcs; congruence] end.
+
+
+Record InvA' (s : state) : Prop := {
+  a_base : InvA s;
+  a_pump2 : forall h m, pp s h = PSend m -> mp s m = MPump h
+}.
+
+
+Ltac cnt_special Ahwg Arwg Ahb1 Amb Aloop2 :=
+  try match goal with
+    | Hl : lp ?s ?h = LLocked ?m |- S (runningWg ?s) = cnt _ (upd (mp ?s) ?m MSpawned) _ =>
+        assert (mp s m = MLoop h) by (apply Aloop2; rewrite Hl; simpl; apply Nat.eqb_refl);
+        rewrite (cnt_upd_inc in_progress (mp s) (nextm s) m MSpawned);
+        [congruence | lt_m Amb | rew_pcs; reflexivity | reflexivity]
+    | Hl : lp ?s ?h = LWgDone |- Nat.pred (handlersWg ?s) = cnt _ (upd (lp ?s) ?h LEnd) _ =>
+        let Hd := fresh in
+        pose proof (cnt_upd_dec loop_alive (lp s) (nh s) h LEnd) as Hd;
+        rewrite Hl in Hd; simpl in Hd; rewrite Ahwg; rewrite <- Hd; [reflexivity | lt_h Ahb1 | reflexivity | reflexivity]
+    | Hm : mp ?s ?m = MSettled |- Nat.pred (runningWg ?s) = cnt _ (upd (mp ?s) ?m MDone) _ =>
+        let Hd := fresh in
+        pose proof (cnt_upd_dec in_progress (mp s) (nextm s) m MDone) as Hd;
+        rewrite Hm in Hd; simpl in Hd; rewrite Arwg; rewrite <- Hd; [reflexivity | lt_m Amb | reflexivity | reflexivity]
+    end.
+
+Ltac invA_auto s IC I H :=
+  destruct I as [[Ahwg Arwg Ahb1 Ahb2 Amb Alk1 Alk2 Alk3 Alk4 Aloop1 Aloop2 Apump Aout1 Aout2 Aout3 Apub] Apump2];
+  pose proof (Amb (nextm s)) as Amb';
+  step_cases H;
+  (constructor; [constructor|]); simpl; intros; try solve [auto]; cnt_tac;
+  cnt_special Ahwg Arwg Ahb1 Amb Aloop2;
+  upd_all; try solve [auto]; try (timeout 10 fin);
+  inst_all; try (inst_with (nextm s)); try (timeout 10 fin); try (timeout 10 fin2); try (timeout 10 fin4).
+
+Lemma InvA_LClose s c s' : InvC s -> InvA' s -> step s (LClose c) = Some s' -> InvA' s'.
+Proof.
+  intros IC I H.
+  pose proof (c_sig s IC c) as Csig; pose proof (c_closing0 s IC) as Ccl.
+  invA_auto s IC I H.
+  all: try solve [ assert (Hc : closingCh s = false) by (apply Csig; first [reflexivity|assumption]);
+                   destruct (Ccl Hc) as (_ & _ & _ & Hw2);
+                   match goal with Hl : runningLock _ = Some OWaiter |- _ => apply Alk3 in Hl; rewrite Hw2 in Hl; discriminate end ].
+Qed.
+
+Lemma InvA_LDeliver s h s' : InvC s -> InvA' s -> step s (LDeliver h) = Some s' -> InvA' s'.
+Proof.
+  intros IC I H.
+  invA_auto s IC I H.
+  all: try match goal with
+    | Hp : pp ?s ?h = PSend ?m |- runningWg ?s = cnt _ (upd (mp ?s) ?m (MLoop ?h)) _ =>
+        rewrite cnt_upd_same; [assumption | rewrite (Apump2 h m Hp); reflexivity]
+    end.
+Qed.
+
+Lemma InvA_LCall s c s' : InvC s -> InvA' s -> step s (LCall c) = Some s' -> InvA' s'.
+Proof.
+  intros IC I H. invA_auto s IC I H.
+Qed.
+
+Lemma InvA_LEnvCancel s  s' : InvC s -> InvA' s -> step s (LEnvCancel ) = Some s' -> InvA' s'.
+Proof.
+  intros IC I H. invA_auto s IC I H.
+Qed.
+
+Lemma InvA_LEmit s h s' : InvC s -> InvA' s -> step s (LEmit h) = Some s' -> InvA' s'.
+Proof.
+  intros IC I H. invA_auto s IC I H.
+Qed.
+
+Lemma InvA_LChanClose s h s' : InvC s -> InvA' s -> step s (LChanClose h) = Some s' -> InvA' s'.
+Proof.
+  intros IC I H. invA_auto s IC I H.
+Qed.
+
+Lemma InvA_LFinish s m s' : InvC s -> InvA' s -> step s (LFinish m) = Some s' -> InvA' s'.
+Proof.
+  intros IC I H. invA_auto s IC I H.
+Qed.
+
+Lemma InvA_LTimeout s c s' : InvC s -> InvA' s -> step s (LTimeout c) = Some s' -> InvA' s'.
+Proof.
+  intros IC I H. invA_auto s IC I H.
+Qed.
+
+Lemma InvA_LWaitDone s c s' : InvC s -> InvA' s -> step s (LWaitDone c) = Some s' -> InvA' s'.
+Proof.
+  intros IC I H. invA_auto s IC I H.
+Qed.
+
+Lemma InvA_LW1 s  s' : InvC s -> InvA' s -> step s (LW1 ) = Some s' -> InvA' s'.
+Proof.
+  intros IC I H. invA_auto s IC I H.
+Qed.
+
+Lemma InvA_LW2 s  s' : InvC s -> InvA' s -> step s (LW2 ) = Some s' -> InvA' s'.
+Proof.
+  intros IC I H. invA_auto s IC I H.
+Qed.
+
+Lemma InvA_LRun s  s' : InvC s -> InvA' s -> step s (LRun ) = Some s' -> InvA' s'.
+Proof.
+  intros IC I H. invA_auto s IC I H.
+Qed.
+
+Lemma InvA_LLoop s h s' : InvC s -> InvA' s -> step s (LLoop h) = Some s' -> InvA' s'.
+Proof.
+  intros IC I H. invA_auto s IC I H.
+  all: match goal with
+    | Hl : lp ?s ?h = LLocked ?m, Hp : pp ?s ?h0 = PSend ?m |- _ = MPump ?h0 =>
+        exfalso; pose proof (Apump2 h0 m Hp);
+        assert (mp s m = MLoop h) by (apply Aloop2; rewrite Hl; simpl; apply Nat.eqb_refl); congruence
+    end.
+Qed.
+
+Lemma InvA_LPump s h s' : InvC s -> InvA' s -> step s (LPump h) = Some s' -> InvA' s'.
+Proof.
+  intros IC I H. invA_auto s IC I H.
+Qed.
+
+Lemma InvA_LHcClosing s h s' : InvC s -> InvA' s -> step s (LHcClosing h) = Some s' -> InvA' s'.
+Proof.
+  intros IC I H. invA_auto s IC I H.
+Qed.
+
+Lemma InvA_LHcCtx s h s' : InvC s -> InvA' s -> step s (LHcCtx h) = Some s' -> InvA' s'.
+Proof.
+  intros IC I H. invA_auto s IC I H.
+Qed.
+
+Lemma InvA_LHc s h s' : InvC s -> InvA' s -> step s (LHc h) = Some s' -> InvA' s'.
+Proof.
+  intros IC I H. invA_auto s IC I H.
+Qed.
+
+Lemma InvA_LMsg s m s' : InvC s -> InvA' s -> step s (LMsg m) = Some s' -> InvA' s'.
+Proof.
+  intros IC I H. invA_auto s IC I H.
+Qed.
+
+Lemma InvA'_init n hon f5 f6 f12 : InvA' (init n hon f5 f6 f12).
+Proof.
+  constructor; [apply InvA_init|]. simpl. intros h m. destruct (Nat.ltb h n); discriminate.
+Qed.
+
+Lemma InvA'_step s l s' : InvC s -> InvA' s -> step s l = Some s' -> InvA' s'.
+Proof.
+  intros IC I H. destruct l.
+  - eapply InvA_LCall; eassumption.
+  - eapply InvA_LEnvCancel; eassumption.
+  - eapply InvA_LEmit; eassumption.
+  - eapply InvA_LChanClose; eassumption.
+  - eapply InvA_LFinish; eassumption.
+  - eapply InvA_LTimeout; eassumption.
+  - eapply InvA_LClose; eassumption.
+  - eapply InvA_LWaitDone; eassumption.
+  - eapply InvA_LW1; eassumption.
+  - eapply InvA_LW2; eassumption.
+  - eapply InvA_LRun; eassumption.
+  - eapply InvA_LLoop; eassumption.
+  - eapply InvA_LDeliver; eassumption.
+  - eapply InvA_LPump; eassumption.
+  - eapply InvA_LHcClosing; eassumption.
+  - eapply InvA_LHcCtx; eassumption.
+  - eapply InvA_LHc; eassumption.
+  - eapply InvA_LMsg; eassumption.
+Qed.
